@@ -32,7 +32,7 @@ Line protocol for C07.
 `C07 A <delivery>* | <op>*`                                `__aiter__` on an observation that has
    been through the deliveries (`cb:<n>` / `eb:<N|C|Tk>`) already, then ops as for `I`
    → the groups of the ops after the `|` (the replay is visible in the first group's state)
-`C07 U <event>*`                                           the loop of `BlockwiseRequest._run_observation`
+`C07 U [^c|^g] <event>* [?L]`                                         the loop of `BlockwiseRequest._run_observation`
    events: `I<n>:<ok|skip|net>[:c]` the lower iteration yields notification n, and its body is fetched /
            the fetch fails with an error that is no network error / with a network error (`:c`: the
            application cancels from inside the callback); `F<code>:<ok|skip|net>[:c]` the same for the final
@@ -235,6 +235,7 @@ def parseFetch (s : String) : Option Upper.Fetch :=
 def parseLowerEv (s : String) : Option (Upper.LowerEv String) :=
   if s = "stop" then some .stop
   else if s = "raise" then some (.raise 0)
+  else if s = "cancel" then some .cancel
   else
     let label (id : String) : Option String :=
       if id.startsWith "I" then some (id.drop 1).toString
@@ -257,6 +258,23 @@ def upperGroups (s : Upper.St) : List (Upper.LowerEv String) → List String
     let r := Upper.step s e
     (if r.2.isEmpty then "." else ",".intercalate (r.2.map upperOutStr)) :: upperGroups r.1 es
 
+/-- `C07 U [^c|^g] <event>* [?L]`: `^c` / `^g` = the application's observation was cancelled before the loop's
+task took its first step / was dropped; `?L` asks for a last group `L+` / `L-`: has
+`lower_observation.cancel()` been reached at the end -/
+def handleUpper (toks : List String) : String :=
+  let (b, toks) : Upper.Start × List String := match toks with
+    | "^c" :: r => (.cancelledEarly, r)
+    | "^g" :: r => (.collected, r)
+    | r => (.alive, r)
+  let askL := toks.getLast? == some "?L"
+  let toks := if askL then toks.dropLast else toks
+  match toks.mapM parseLowerEv with
+  | none => "bad-op"
+  | some evs =>
+    let gs := upperGroups (Upper.start b) evs
+    let l := if askL then [if Upper.lowerGivenUp (Upper.runFrom b evs).1 then "L+" else "L-"] else []
+    if (gs ++ l).isEmpty then "-" else " ".intercalate (gs ++ l)
+
 end Observe
 
 def handleC07 (args : List String) : String :=
@@ -274,10 +292,7 @@ def handleC07 (args : List String) : String :=
       | none => "out-of-model"
     | _, _, _ => "bad-op"
   | "J" :: reset :: observe :: rest => handleJoint reset observe rest
-  | "U" :: evs =>
-    match evs.mapM parseLowerEv with
-    | some evs => if evs.isEmpty then "-" else " ".intercalate (upperGroups .running evs)
-    | none => "bad-op"
+  | "U" :: toks => handleUpper toks
   | "I" :: ops =>
     match ops.mapM parseIterOp with
     | some ops => iterAnswer Iter.init ops
